@@ -247,6 +247,13 @@ class Impl:
                                                     kw=lambda t=t: {'labels': self.value(t[1]),
                                                                     'capacities': self.value(t[2])})
                                     for t in s['interfaces']]
+        elif op == 'add_switch':
+            info['pure_ns'] = self.pure_service({'nstype': s.get('nstype', 'P4')},
+                                                kw=lambda: {'labels': self.value(s.get('nslabels'))})
+            info['pure_port'] = self.pure_iface(
+                {'itype': 'DedicatedPort'},
+                kw=lambda: {'labels': self.value(s.get('portlabels')) or self.f.Labels(local_name='p1'),
+                            'capacities': self.value(s.get('portcapacities')) or self.f.Capacities(bw=100)})
         return info
 
     def run(self, s):
@@ -293,7 +300,12 @@ class Impl:
                 args['interfaces'] = [(x[0], self.value(x[1]), self.value(x[2])) for x in s['interfaces']]
             t.add_facility(**args)
         elif op == 'add_switch':
-            t.add_switch(name=s['name'], node_id=s.get('node_id'), site=s.get('site'), nports=s.get('nports', 2))
+            args = dict(name=s['name'], node_id=s.get('node_id'), site=s.get('site'), nports=s.get('nports', 2),
+                        nslabels=self.value(s.get('nslabels')), portlabels=self.value(s.get('portlabels')),
+                        portcapacities=self.value(s.get('portcapacities')))
+            if 'nstype' in s:
+                args['nstype'] = self.enum(f.ServiceType, s['nstype'])
+            t.add_switch(**args)
         elif op == 'remove_node':
             t.remove_node(s['name'])
         elif op == 'remove_facility':
